@@ -3,6 +3,7 @@ package p_distlock
 import (
 	"context"
 	"fmt"
+	"io"
 	"sync"
 	"sync/atomic"
 	"time"
@@ -37,6 +38,7 @@ type LeaseScenario struct {
 	Hold10     int           `json:"hold10,omitempty"`      // unlockfail: the lock is held this many tenths of a lease before the failing Unlock
 	Applied    bool          `json:"applied,omitempty"`     // unlockfail: the Delete is applied and only its reply is lost
 	Blocking   bool          `json:"blocking,omitempty"`    // hold: the contender tries with a blocking LockWithCtx (a tenth of a lease) instead of TryLock
+	ErrKind    int           `json:"err_kind,omitempty"`    // hold: what the failing renewal calls return: 0 a plain error, 1 wraps ErrClosed, 2 wraps ErrCommunication, 3 context.DeadlineExceeded, 4 io.ErrUnexpectedEOF, 5 wraps ErrInternal
 	InFlight   int           `json:"in_flight,omitempty"`   // unlockfail: a renewal is in flight across the Unlock: 1 held before the storage applied it, 2 after
 	FailCreate []int         `json:"fail_create,omitempty"` // hold: the contender's k-th Create fails: k > 0 request lost, k < 0 the (-k)-th is applied and its reply lost
 	Locks      int           `json:"locks,omitempty"`       // multi: number of locks one process holds
@@ -49,6 +51,44 @@ type MultiUnlock struct {
 	I    int `json:"i"`
 	At10 int `json:"at10"`
 }
+
+// transientErr: the shapes a passing storage failure takes (never ErrNotExist / ErrConflict, which are answers).
+func transientErr(kind int) error {
+	switch kind {
+	case 1:
+		return fmt.Errorf("connection reset, reconnecting: %w", gerrors.ErrClosed)
+	case 2:
+		return fmt.Errorf("storage unreachable: %w", gerrors.ErrCommunication)
+	case 3:
+		return context.DeadlineExceeded
+	case 4:
+		return io.ErrUnexpectedEOF
+	case 5:
+		return fmt.Errorf("storage hiccup: %w", gerrors.ErrInternal)
+	}
+	return nil
+}
+
+// parkCtx parks the first call the lock code makes to any of its methods until the harness lets it go (a schedule
+// point wherever the lock code consults the caller's context).
+type parkCtx struct {
+	context.Context
+	once            sync.Once
+	reached, resume chan struct{}
+}
+
+func newParkCtx(parent context.Context) *parkCtx {
+	return &parkCtx{Context: parent, reached: make(chan struct{}), resume: make(chan struct{})}
+}
+
+func (c *parkCtx) park() {
+	if calledFromLockCode() {
+		c.once.Do(func() { close(c.reached); <-c.resume })
+	}
+}
+func (c *parkCtx) Err() error                  { c.park(); return c.Context.Err() }
+func (c *parkCtx) Done() <-chan struct{}       { c.park(); return c.Context.Done() }
+func (c *parkCtx) Deadline() (time.Time, bool) { c.park(); return c.Context.Deadline() }
 
 var leaseMu sync.Mutex
 
@@ -119,6 +159,8 @@ func runLease(s LeaseScenario) (info LeaseInfo, v *vstat.Violation, exact bool) 
 		return runMulti(s)
 	case "sharedhandoff":
 		return runSharedHandoff(s)
+	case "trygate":
+		return runTryGate(s)
 	}
 	panic("bad scenario " + s.Kind)
 }
@@ -141,6 +183,7 @@ func runHold(s LeaseScenario) (info LeaseInfo, v *vstat.Violation, exact bool) {
 		fa.FailCas(k)
 	}
 	fa.CasDelay = L * time.Duration(s.DelayPct) / 100
+	fa.CasErr = transientErr(s.ErrKind)
 	for _, k := range s.FailCreate {
 		if k > 0 {
 			fb.FailCreate(k, false)
@@ -155,6 +198,18 @@ func runHold(s LeaseScenario) (info LeaseInfo, v *vstat.Violation, exact bool) {
 	ctx := context.Background()
 	t0 := time.Now()
 	switch s.Acquire {
+	case "lockctx-deadline", "trylock-deadline":
+		// the context carries a deadline a quarter of a lease ahead and is simply left to run out while the lock is held
+		fa.HonourCtx = true
+		actx, cancel := context.WithTimeout(ctx, L/4)
+		defer cancel()
+		if s.Acquire == "lockctx-deadline" {
+			if err := a.LockWithCtx(actx); err != nil {
+				return info, vstat.V("lease:cannot-acquire", "LockWithCtx on a free lock returned %v", err), true
+			}
+		} else if !a.TryLock(actx) {
+			return info, vstat.V("lease:cannot-acquire", "TryLock on a free lock returned false"), true
+		}
 	case "lockctx", "trylock":
 		// the context bounds the acquisition only; once the call has returned, the caller is done with it
 		fa.HonourCtx = true
@@ -497,7 +552,8 @@ func runWaitHold(s LeaseScenario) (info LeaseInfo, v *vstat.Violation, exact boo
 	case <-got:
 		a.Unlock()
 		b.Unlock()
-		return info, vstat.V("lease:contender-acquired-while-held", "lease %v: a second locker's Lock() returned while the first still holds the lock", L), true
+		// not exact: on an overloaded machine the holder's renewal can come too late (confirmed with longer leases)
+		return info, vstat.V("lease:contender-acquired-while-held", "lease %v: a second locker's Lock() returned while the first still holds the lock; storage calls of the holder:%s", L, describeEvents(fa.Events(), t0)), false
 	default:
 	}
 	a.Unlock()
@@ -910,5 +966,90 @@ func runSharedHandoff(s LeaseScenario) (info LeaseInfo, v *vstat.Violation, exac
 		return info, vstat.V("lease:not-released", "lease %v: after the second Unlock a contender's TryLock returns false", L), true
 	}
 	b.Unlock()
+	return info, nil, false
+}
+
+// trygate: two goroutines share a Locker; the first holds the lock, the second calls TryLock (or LockWithCtx) with a
+// context that parks the first time the lock code consults it. If the call parks, the first goroutine unlocks before it
+// is let go; if it returns without ever consulting the context (TryLock on a taken lock), the first goroutine unlocks
+// and the second tries again. Either way the second goroutine ends up holding the lock and keeps it: record present,
+// unexpired, contender excluded for 1.8 leases.
+func runTryGate(s LeaseScenario) (info LeaseInfo, v *vstat.Violation, exact bool) {
+	L := time.Duration(s.LeaseMs) * time.Millisecond
+	inner := inmem.New()
+	fa, fb := gated.NewFaulty(inner), gated.NewFaulty(inner)
+	pa, pb := newProvider(fa, L), newProvider(fb, L)
+	defer pa.Shutdown()
+	defer pb.Shutdown()
+	a, b := pa.NewLocker("lease"), pb.NewLocker("lease")
+	ctx := context.Background()
+	t0 := time.Now()
+	a.Lock()
+	time.Sleep(L * time.Duration(s.Wait10) / 10)
+	pc := newParkCtx(ctx)
+	res := make(chan bool, 1)
+	go func() {
+		if s.After {
+			res <- a.LockWithCtx(pc) == nil
+		} else {
+			res <- a.TryLock(pc)
+		}
+	}()
+	got, unlocked := false, false
+	select {
+	case <-pc.reached:
+		info.HeldInFlight = true
+		a.Unlock()
+		unlocked = true
+		close(pc.resume)
+		select {
+		case got = <-res:
+		case <-time.After(L + 5*time.Second):
+			return info, vstat.V("lease:never-released", "lease %v: an attempt on a Locker whose holder has unlocked did not return within %v", L, L+5*time.Second), false
+		}
+	case got = <-res:
+	case <-time.After(L/10 + 100*time.Millisecond):
+		// LockWithCtx waiting for the token without having consulted the context yet: unlock, it takes over
+		a.Unlock()
+		unlocked = true
+		select {
+		case got = <-res:
+		case <-pc.reached:
+			close(pc.resume)
+			got = <-res
+		case <-time.After(L + 5*time.Second):
+			return info, vstat.V("lease:never-released", "lease %v: the goroutine waiting in LockWithCtx on the same Locker did not get the lock within %v of the Unlock", L, L+5*time.Second), false
+		}
+	}
+	if !unlocked {
+		if got {
+			return info, vstat.V("lease:contender-acquired-while-held", "lease %v: TryLock on a held Locker returned true", L), true
+		}
+		a.Unlock()
+	}
+	if !got {
+		if !a.TryLock(ctx) {
+			return info, vstat.V("lease:cannot-reacquire", "lease %v: TryLock of the Locker fails after Unlock", L), true
+		}
+	}
+	t1 := time.Now()
+	defer a.Unlock()
+	for time.Since(t1) < 18*L/10 {
+		time.Sleep(L / 5)
+		info.Samples++
+		now := time.Now()
+		if b.TryLock(ctx) {
+			b.Unlock()
+			return info, vstat.V("lease:contender-acquired-while-held", "lease %v: two goroutines share a Locker; %.1f leases after the second one acquired it (its attempt overlapped the first one's Unlock) a contender acquired the held lock; storage calls:%s",
+				L, float64(now.Sub(t1))/float64(L), describeEvents(fa.Events(), t0)), false
+		}
+		if !s.OnlyExcl {
+			r, err := inner.Get(ctx, leaseKey)
+			if err != nil || r.ExpiresAt == nil || !r.ExpiresAt.After(now) {
+				return info, vstat.V("lease:record-expired-while-held", "lease %v: two goroutines share a Locker; %.1f leases after the second one acquired it (its attempt overlapped the first one's Unlock) its record is missing or expired (err=%v); storage calls:%s",
+					L, float64(now.Sub(t1))/float64(L), err, describeEvents(fa.Events(), t0)), false
+			}
+		}
+	}
 	return info, nil, false
 }
